@@ -18,7 +18,9 @@ RULE = ("unum: get_num/get_address/get_range on numerals in every spelling (deci
         "ranges a / a- / a-b / -b / reversed / with blanks and junk.  util: scripted sessions (write*/print*/disasm/"
         "info/asm/set/step/registers/reset + invalid commands) on one CPU per (byte order, bytes per address, "
         "alignment) class of the regenerated cpu_list, addresses at 0, 64 KiB page boundaries, 2^31, top of memory, "
-        "odd addresses, symbols, multi-value writes.  A case is non-trivial when it has >= 2 words; distinct = "
+        "odd addresses, symbols, multi-value writes; page straddling reads (22 CPUs with alignment 1 / 2: 16/32-bit "
+        "data whose first 1..3 bytes lie in a 64 KiB page that holds nothing and the rest in the next page, which "
+        "does; before / after the writes and after the front page got a byte far away).  A case is non-trivial when it has >= 2 words; distinct = "
         "distinct protocol lines.  Oracle: structured well-formed sessions judged by a reference image written from "
         "the property (round trip, byte order, address units, frame by dumping windows around every write and the "
         "page boundaries before and after), in process and through the sanitised naken_util executable; -bin "
@@ -316,6 +318,8 @@ def correspondence(ctx, corr):
     for i in range(ctx.scale(40, 400)):      # the simulator sessions run on the MSP430 only
         syms, lines, asm = gen_corr_session(rng, names["msp430"])
         sessions.append({"cpu": names["msp430"], "syms": syms, "lines": lines, "asm": asm})
+    for s in straddle_sessions(ctx, names):           # page straddling reads (model vs code)
+        sessions.append({"cpu": s["cpu"], "syms": {}, "lines": s["lines"], "asm": []})
     res = resolve_asm(ctx, sessions)
     sl = [session_line(s, r) for s, r in zip(sessions, res)]
     raw, model = both(ctx, sl)
@@ -427,6 +431,106 @@ def gen_oracle_session(rng, cpu, with_sim=False):
     return {"cpu": cpu, "syms": syms, "lines": lines, "asm": asm, "expect": expect, "ref_syms": syms}
 
 
+# ---------------------------------------------------------------------------
+# page straddling reads: the first byte(s) of a 16/32-bit datum in a 64 KiB page that holds nothing, the rest in
+# the next page, which holds data (Memory allocates pages on demand; a multi-byte read must not stop at the first one)
+# ---------------------------------------------------------------------------
+
+STRADDLE_NAMES = ["6502", "z80", "8051", "stm8", "6809", "1802", "xtensa", "65816", "msp430", "68000", "pdp11", "tms9900",
+                  "tms340", "sh4", "thumb", "pic18", "avr8", "pic14", "lc3", "cp1610", "dspic", "unsp"]
+STRADDLE_FIXED = [
+    ("68000", ["write16 0x10000 0x1234", "print32 0xfffe-0xfffe", "print 0xfffe-0x10001"]),
+    ("6502", ["write 0x20000 0xab", "print16 0x1ffff-0x1ffff", "print32 0x1fffd", "print32 0x1fffe", "print32 0x1ffff"]),
+    ("msp430", ["write16 0x30000 0xbeef", "print32 0x2fffe-0x2fffe", "print16 0x2fffe-0x30001"]),
+]
+
+
+def straddle_cpus(names):
+    return [names[n] for n in STRADDLE_NAMES if n in names and names[n]["align"] <= 2 and names[n]["bpa"] <= 2]
+
+
+def straddle_starts(cpu, boundary):
+    """(width, first byte) of the data that begin in the last 1..3 bytes of the page in front of `boundary` and end
+    behind it, as far as the alignment rule of the CPU admits them"""
+    bpa, align = cpu["bpa"], cpu["align"]
+    out = []
+    for width, back in ((16, 1), (32, 1), (32, 2), (32, 3)):
+        b = boundary - back
+        if b % bpa == 0 and b % min(align, G.NB[width]) == 0:
+            out.append((width, b))
+    return out
+
+
+def gen_straddle_session(rng, cpu, boundary=None):
+    """well-formed session: nothing is ever written into the page in front of the boundary (until the control step at
+    the end), data are written at the start of the page behind it, and every straddling datum is listed - before the
+    first write (all zero), after every write, and once more after a byte far away in the front page was written"""
+    bpa = cpu["bpa"]
+    if boundary is None:
+        boundary = 0x10000 * rng.choice([1, 1, 1, 2, 3, 0x10, 0x100, 0x8000, 0xffff])
+    lines, expect = [], []
+    starts = straddle_starts(cpu, boundary)
+
+    def add_print(op):
+        lines.append(G.op_text(rng, op, {}))
+        expect.append((len(lines) - 1, "print-op", op))
+
+    def look():
+        for width, b in starts:
+            a = b // bpa
+            form = rng.randrange(4)
+            add_print(("print", width, a, [a, None, a + rng.choice([1, 2, 3, 8]), a + 1][form]))
+        if rng.random() < 0.5:
+            add_print(("print", 8, (boundary - 4) // bpa, (boundary + 7) // bpa))
+
+    if rng.random() < 0.4:
+        look()
+    for k in range(rng.randrange(1, 4)):
+        width = rng.choice([8, 16, 32])
+        off = rng.choice([0, 0, 0, 0, 4, 8]) if (width > 8 or bpa > 1) else rng.choice([0, 0, 0, 1, 2, 3])
+        nv = rng.choice([1, 1, 2, 3])
+        mask = (1 << width) - 1
+        vals = [((rng.getrandbits(32) | 0x01010101) & mask) for _ in range(nv)]
+        a = (boundary + off) // bpa
+        lines.append(G.op_text(rng, ("write", width, a, vals), {}))
+        expect.append((len(lines) - 1, "write", (width, a, vals, True)))
+        look()
+    # control: the front page becomes allocated by a byte far from the boundary; the same data must be listed again
+    far = (boundary - rng.choice([0x8000, 0x100, 0xfff0])) // bpa
+    lines.append(G.op_text(rng, ("write", 8, far, [0x77]), {}))
+    expect.append((len(lines) - 1, "write", (8, far, [0x77], True)))
+    look()
+    return {"cpu": cpu, "syms": {}, "lines": lines, "asm": [], "expect": expect, "ref_syms": {}, "class": "straddle"}
+
+
+def fixed_straddle_sessions(names):
+    out = []
+    for cpuname, script in STRADDLE_FIXED:
+        cpu = names[cpuname]
+        expect = []
+        for i, l in enumerate(script):
+            w = l.split()
+            if w[0].startswith("write"):
+                width = int(w[0][5:] or 8)
+                expect.append((i, "write", (width, int(w[1], 16) // cpu["bpa"], [int(x, 16) for x in w[2:]], True)))
+            else:
+                width = int(w[0][5:] or 8)
+                a, _, b = w[1].partition("-")
+                expect.append((i, "print-op", ("print", width, int(a, 16), int(b, 16) if b else None)))
+        out.append({"cpu": cpu, "syms": {}, "lines": list(script), "asm": [], "expect": expect, "ref_syms": {}, "class": "straddle"})
+    return out
+
+
+def straddle_sessions(ctx, names):
+    rng = ctx.rng
+    out = fixed_straddle_sessions(names)
+    for cpu in straddle_cpus(names):
+        out.append(gen_straddle_session(rng, cpu, 0x10000))
+        for _ in range(ctx.scale(1, 12)):
+            out.append(gen_straddle_session(rng, cpu))
+    return out
+
+
 def judge_session(s, per_cmd, orc, engine):
     """per_cmd: list of event-word lists, one per script line.  Replays the reference along the script."""
     cpu = s["cpu"]
@@ -523,6 +627,10 @@ def oracle(ctx, orc, focus=None):
     for cpu in reps:
         for _ in range(ctx.scale(10, 80)):
             sessions.append(gen_oracle_session(rng, cpu))
+    straddle = straddle_sessions(ctx, names)
+    sessions += straddle
+    orc["stats"]["straddle_sessions"] = len(straddle)
+    orc["stats"]["straddle_reads"] = sum(1 for s in straddle for (_, k, d) in s["expect"] if k == "print-op" and d[1] > 8)
     lines = [session_line(s, []) for s in sessions]
     raw = impl(ctx, lines)
     for s, a in zip(sessions, raw):
@@ -547,8 +655,15 @@ def oracle(ctx, orc, focus=None):
         remap = {old: new for new, old in enumerate(keep)}
         return dict(s, lines=[s["lines"][i] for i in keep],
                     expect=[(remap[i], k, d) for (i, k, d) in s["expect"] if i in remap])
-    psessions = [proc_view(s) for s in sessions if not s["syms"]]
+    psessions = [proc_view(s) for s in sessions if not s["syms"] and s.get("class") != "straddle"]
     psessions = psessions[:: max(1, len(psessions) // ctx.scale(40, 300))][:ctx.scale(40, 300)]
+    # the straddling reads through the real executable: the fixed ones and one or two per CPU
+    seen_cpu = {}
+    for s in straddle:
+        n = seen_cpu.get(s["cpu"]["name"], 0)
+        if n < ctx.scale(2, 6):
+            seen_cpu[s["cpu"]["name"]] = n + 1
+            psessions.append(s)
     from concurrent.futures import ThreadPoolExecutor
     with ThreadPoolExecutor(8) as ex:
         outs = list(ex.map(lambda s: run_process(ctx, s), psessions))
